@@ -32,8 +32,17 @@ ActiveCases(ch, dk) == {i \in 1..Len(ch.kids) : AnyPresent(CaseKids(ch.kids[i]),
 \*    "choice" (mandatory choice without any node), "count" (min-/max-elements of a
 \*    present list / leaf-list), "unique";  n: the schema node;  path: the data path of
 \*    the parent (non-presence containers looked through are part of it)
-\*    sp: the same without list entry names (the schema path)
-Vio(k, n, path, sp) == [k |-> k, n |-> n, path |-> path, sp |-> sp]
+\*    sp: the same without list entry names (the schema path);  u: for "unique" the statement
+\*    (index) and the value tuple two or more entries share - one violation per such group
+NoU == [x |-> 0, t |-> << >>]
+VioU(k, n, path, sp, u) == [k |-> k, n |-> n, path |-> path, sp |-> sp, u |-> u]
+Vio(k, n, path, sp) == VioU(k, n, path, sp, NoU)
+\* How an error can identify a violation by its type and path alone (message wording is not
+\* part of the property): missing / choice - an exec error at the parent's path; unique - an
+\* exec error at the list's path; count - a too-few / too-many-elements error at the schema path
+VKey(v) == CASE v.k = "unique" -> [t |-> "exec", path |-> v.path \o <<v.n>>]
+             [] v.k = "count"  -> [t |-> "count", path |-> v.sp \o <<v.n>>]
+             [] OTHER          -> [t |-> "exec", path |-> v.path]
 CountBad(c, n) == n < c.min \/ (c.max > 0 /\ n > c.max)
 
 \* value of the leaf a descendant path designates below dk, << >> when there is none
@@ -43,9 +52,12 @@ Resolve(dk, path) ==
   ELSE IF Len(path) = 1 THEN Child(dk, path[1]).vals ELSE Resolve(Child(dk, path[1]).kids, Tail(path))
 UTuple(e, u) == [i \in 1..Len(u) |-> Resolve(e.kids, u[i])]
 UComplete(e, u) == \A i \in 1..Len(u) : Resolve(e.kids, u[i]) # << >>
-UniqueBad(c, es) ==
-  \E x \in 1..Len(c.uniq) : \E e1, e2 \in es :
-     e1 # e2 /\ UComplete(e1, c.uniq[x]) /\ UComplete(e2, c.uniq[x]) /\ UTuple(e1, c.uniq[x]) = UTuple(e2, c.uniq[x])
+\* the groups of a unique statement: value tuples that two or more complete entries share
+UniqueGroups(c, es) ==
+  UNION {{[x |-> x, t |-> UTuple(e1, c.uniq[x])] :
+            e1 \in {e \in es : UComplete(e, c.uniq[x]) /\ \E e2 \in es : e2 # e /\ UComplete(e2, c.uniq[x])
+                                                          /\ UTuple(e2, c.uniq[x]) = UTuple(e, c.uniq[x])}}
+         : x \in 1..Len(c.uniq)}
 
 \* all = TRUE: every violation; all = FALSE: a list that violates its own cardinality
 \* hides whatever is wrong about its entries (the statement does not ask for more
@@ -61,7 +73,7 @@ ViolNode(c, dk, path, sp, all) ==
          ELSE LET es == Child(dk, c.name).kids
                   cnt == IF CountBad(c, Cardinality(es)) THEN {Vio("count", c.name, path, sp)} ELSE {}
               IN IF cnt # {} /\ ~all THEN cnt
-                 ELSE cnt \cup (IF UniqueBad(c, es) THEN {Vio("unique", c.name, path, sp)} ELSE {})
+                 ELSE cnt \cup {VioU("unique", c.name, path, sp, g) : g \in UniqueGroups(c, es)}
                           \cup UNION {Viol(c.kids, e.kids, path \o <<c.name, e.name>>, sp \o <<c.name>>, all) : e \in es}
     [] c.kind = "container" ->
          IF Has(dk, c.name) THEN Viol(c.kids, Child(dk, c.name).kids, path \o <<c.name>>, sp \o <<c.name>>, all)
@@ -142,30 +154,31 @@ UniqueLeaves(kids) ==
 KeyVal(i) == CASE i = 1 -> "1" [] i = 2 -> "2" [] OTHER -> "3"
 LLVals(n) == SubSeq(<<"1", "2", "3", "4">>, 1, n)
 
-\* DataSets(sk, U, me, ml): all sets of data nodes below a parent with schema children sk;
-\* U = names of two-valued leaves, me = maximal number of list entries, ml = of leaf-list values
-RECURSIVE DataSets(_, _, _, _), EntrySets(_, _, _)
-Opts(c, U, me, ml) ==
+\* DataSets(sk, U, me, ml, ic): all sets of data nodes below a parent with schema children sk;
+\* U = names of two-valued leaves, me = maximal number of list entries, ml = of leaf-list values,
+\* ic = sk are the members of a case (no present-but-empty nodes there)
+RECURSIVE DataSets(_, _, _, _, _), EntrySets(_, _, _)
+Opts(c, U, me, ml, ic) ==
   CASE c.kind = "leaf" ->
          {{}} \cup (IF IsEmptyType(c.typ) THEN {{D(c.name, << >>, {})}}
                     ELSE {{D(c.name, <<v>>, {})} : v \in (IF c.name \in U THEN {"1", "2"} ELSE {"1"})})
-    [] c.kind = "leaflist" -> {{}} \cup {{D(c.name, LLVals(n), {})} : n \in 1..ml}
+    [] c.kind = "leaflist" -> {{}} \cup {{D(c.name, LLVals(n), {})} : n \in (IF ic THEN 1 ELSE 0)..ml}
     [] c.kind = "container" ->
-         {{}} \cup {{D(c.name, << >>, k)} : k \in (DataSets(c.kids, U, me, ml) \ (IF c.presence THEN {} ELSE {{}}))}
+         {{}} \cup {{D(c.name, << >>, k)} : k \in (DataSets(c.kids, U, me, ml, FALSE) \ (IF c.presence \/ ~ic THEN {} ELSE {{}}))}
     [] c.kind = "list" ->
-         LET body == DataSets(SelectSeq(c.kids, LAMBDA x : x.name # c.key), U, me, ml) IN
-         {{}} \cup {{D(c.name, << >>, es)} : es \in UNION {EntrySets(c, body, n) : n \in 1..me}}
+         LET body == DataSets(SelectSeq(c.kids, LAMBDA x : x.name # c.key), U, me, ml, FALSE) IN
+         {{}} \cup {{D(c.name, << >>, es)} : es \in UNION {EntrySets(c, body, n) : n \in (IF ic THEN 1 ELSE 0)..me}}
     [] c.kind = "choice" ->
-         {{}} \cup UNION {DataSets(CaseKids(c.kids[i]), U, me, ml) \ {{}} : i \in 1..Len(c.kids)}
+         {{}} \cup UNION {DataSets(CaseKids(c.kids[i]), U, me, ml, TRUE) \ {{}} : i \in 1..Len(c.kids)}
 \* sets of n entries with keys 1..n, every combination of contents
 EntrySets(c, body, n) ==
   IF n = 0 THEN {{}}
   ELSE {es \cup {D(KeyVal(n), << >>, b \cup {D(c.key, <<KeyVal(n)>>, {})})} : es \in EntrySets(c, body, n - 1), b \in body}
-DataSets(sk, U, me, ml) ==
+DataSets(sk, U, me, ml, ic) ==
   IF sk = << >> THEN {{}}
-  ELSE {a \cup b : a \in Opts(sk[1], U, me, ml), b \in DataSets(Tail(sk), U, me, ml)}
+  ELSE {a \cup b : a \in Opts(sk[1], U, me, ml, ic), b \in DataSets(Tail(sk), U, me, ml, ic)}
 
-DataTrees(schema, me, ml) == DataSets(schema, UniqueLeaves(schema), me, ml)
+DataTrees(schema, me, ml) == DataSets(schema, UniqueLeaves(schema), me, ml, FALSE)
 
 \* ------------------------------------------------------------------ shapes
 \* Sparse levels: a mandatory node of every kind (1 leaf, 2 choice, 3 list with min-elements,
